@@ -1,38 +1,32 @@
 import Splipy.Lemmas.C03Contract
+import Splipy.Lemmas.EvalRow
 
 /-!
 # C03 – non-rational objects: the model derivative is the mixed partial `Σ Π_k dB_k · P`
 
 `Obj.derivativeGeneric` on a non-rational object returns the contraction of the control net with the
 per-direction matrices `Basis.evaluate(t, d_k, side_k)` (by definition, `derivativeGeneric_nonrational`).
-With the C01 statement for the rows used (each row entry is the specification value `dB`; named
-hypothesis `RowsAreDB`) the result is the tensor-product derivative sum of the specification.
+With the C01 statement for the rows used (`RowsAre … β`: each row entry is the specification value
+`β k j`, for C01 `Basis.rowSpec`) the result is the tensor-product derivative sum `Σ Π_k β_k · P`.
 -/
 
 namespace Splipy
 
 variable {K : Type} [Field K] [LinearOrder K] [FloorRing K]
 
-def sideOf (a : Bool) : Side := if a then .right else .left
-
-/-- Mixed partial of the tensor-product spline surface `Σ_{ij} P i j B_i(u) B_j(v)` (one-sided per direction). -/
-def tensorDeriv2 (s1 s2 : Side) (τ1 τ2 : ℕ → K) (q1 q2 n1 n2 : ℕ) (P : ℕ → ℕ → K) (d1 d2 : ℕ) (u v : K) : K :=
-  (Finset.range n1).sum (fun i => dB s1 τ1 q1 i d1 u *
-    (Finset.range n2).sum (fun j => dB s2 τ2 q2 j d2 v * P i j))
-
-/-- Mixed partial of the tensor-product spline volume. -/
-def tensorDeriv3 (s1 s2 s3 : Side) (τ1 τ2 τ3 : ℕ → K) (q1 q2 q3 n1 n2 n3 : ℕ) (P : ℕ → ℕ → ℕ → K)
-    (d1 d2 d3 : ℕ) (u v w : K) : K :=
-  (Finset.range n1).sum (fun i => dB s1 τ1 q1 i d1 u *
-    (Finset.range n2).sum (fun j => dB s2 τ2 q2 j d2 v *
-      (Finset.range n3).sum (fun k => dB s3 τ3 q3 k d3 w * P i j k)))
-
-/-- The C01 statement for the rows a call uses: entry `j` of `basis.evaluate(t, d, from_right)` is the
-    specification value `dB` (non-periodic direction, `t` in the domain; for the general statement with
-    wrapped images and effective sides see `Properties/C01.lean`). -/
-def RowsAreDB (b : Basis K) (tol : K) (ts : List K) (d : ℕ) (a : Bool) : Prop :=
+/-- The rows a call uses have the entries `β k j` (point `k`, function `j`).  `Properties/C03.lean`
+    discharges this from the C01 theorems with `β k j = b.rowSpec t_k a d j`. -/
+def RowsAre (b : Basis K) (tol : K) (ts : List K) (d : ℕ) (a : Bool) (β : ℕ → ℕ → K) : Prop :=
   ∀ k, k < ts.length → ∀ j, j < b.numFunctions →
-    (b.evaluate tol (ts.getD k 0) d a).getD j 0 = dB (sideOf a) b.kn (b.order - 1) j d (ts.getD k 0)
+    (b.evaluate tol (ts.getD k 0) d a).getD j 0 = β k j
+
+/-- What property C01 demands of entry `j` of `basis.evaluate(t, d, from_right)` for `t` in the domain:
+    non-periodic: the one-sided derivative `dB` (side forced to `left` at the domain end);
+    periodic: the sum of the wrapped images `i ≡ j (mod n)` at the effective point/side. -/
+def Basis.rowSpec (b : Basis K) (t : K) (a : Bool) (d j : ℕ) : K :=
+  if b.periodic < 0 then dB (effSide b t a) b.kn (b.order - 1) j d t
+  else ((Finset.range b.nAll).filter (fun i => i % b.numFunctions = j)).sum
+          (fun i => dB (periodicEff b t a).2 b.kn (b.order - 1) i d (periodicEff b t a).1)
 
 namespace Obj
 
@@ -75,22 +69,19 @@ theorem derivative_nonrational_curve (o : Obj K) (b : Basis K) (hb : o.bases.toL
     (r : Tensor K) (hr : o.rational = false)
     (hv : o.validateDomain tol [ts] = .ok [ts'])
     (h : o.derivativeGeneric tol [ts] [d] [a] true = .ok r)
-    (hC01 : RowsAreDB b tol ts' d a) :
+    (β : ℕ → ℕ → K) (hC01 : RowsAre b tol ts' d a β) :
     ∀ k, k < ts'.length → ∀ c, c < nc →
-      r.get (k * nc + c) =
-        splineDeriv (sideOf a) b.kn (b.order - 1) n (fun j => o.cps.get (j * nc + c)) d (ts'.getD k 0) := by
+      r.get (k * nc + c) = (Finset.range n).sum (fun j => β k j * o.cps.get (j * nc + c)) := by
   obtain ⟨ps, hps, hrr⟩ := derivativeGeneric_nonrational o tol [ts] [d] [a] true r hr h
   rw [hv] at hps
   injection hps with hps
   subst hps
   intro k hk c hc
   rw [hrr, homJet_curve o b hb, contractGrid_curve_get _ _ n nc hs k c (by rw [basisMat_size]; exact hk) hc]
-  unfold splineDeriv
   apply Finset.sum_congr rfl
   intro j hj
   rw [Finset.mem_range] at hj
   rw [basisMat_getD _ _ _ _ _ _ hk, hC01 k hk j (by omega)]
-  ring
 
 /-- Surfaces (tensor grid). -/
 theorem derivative_nonrational_surface (o : Obj K) (b1 b2 : Basis K) (hb : o.bases.toList = [b1, b2])
@@ -98,11 +89,11 @@ theorem derivative_nonrational_surface (o : Obj K) (b1 b2 : Basis K) (hb : o.bas
     (tol : K) (us vs us' vs' : List K) (d1 d2 : ℕ) (a1 a2 : Bool) (r : Tensor K) (hr : o.rational = false)
     (hv : o.validateDomain tol [us, vs] = .ok [us', vs'])
     (h : o.derivativeGeneric tol [us, vs] [d1, d2] [a1, a2] true = .ok r)
-    (hC01u : RowsAreDB b1 tol us' d1 a1) (hC01v : RowsAreDB b2 tol vs' d2 a2) :
+    (β1 β2 : ℕ → ℕ → K) (hC01u : RowsAre b1 tol us' d1 a1 β1) (hC01v : RowsAre b2 tol vs' d2 a2 β2) :
     ∀ k1, k1 < us'.length → ∀ k2, k2 < vs'.length → ∀ c, c < nc →
       r.get ((k1 * vs'.length + k2) * nc + c) =
-        tensorDeriv2 (sideOf a1) (sideOf a2) b1.kn b2.kn (b1.order - 1) (b2.order - 1) n1 n2
-          (fun i j => o.cps.get ((i * n2 + j) * nc + c)) d1 d2 (us'.getD k1 0) (vs'.getD k2 0) := by
+        (Finset.range n1).sum (fun i => β1 k1 i *
+          (Finset.range n2).sum (fun j => β2 k2 j * o.cps.get ((i * n2 + j) * nc + c))) := by
   obtain ⟨ps, hps, hrr⟩ := derivativeGeneric_nonrational o tol [us, vs] [d1, d2] [a1, a2] true r hr h
   rw [hv] at hps
   injection hps with hps
@@ -112,7 +103,6 @@ theorem derivative_nonrational_surface (o : Obj K) (b1 b2 : Basis K) (hb : o.bas
   rw [hrr, homJet_surface o b1 b2 hb, ← hsz2,
     contractGrid_surface_get _ _ _ n1 n2 nc hs k1 k2 c (by rw [basisMat_size]; exact hk1)
       (by rw [basisMat_size]; exact hk2) hc]
-  unfold tensorDeriv2
   apply Finset.sum_congr rfl
   intro i hi
   rw [Finset.mem_range] at hi
@@ -131,13 +121,13 @@ theorem derivative_nonrational_volume (o : Obj K) (b1 b2 b3 : Basis K) (hb : o.b
     (hr : o.rational = false)
     (hv : o.validateDomain tol [us, vs, ws] = .ok [us', vs', ws'])
     (h : o.derivativeGeneric tol [us, vs, ws] [d1, d2, d3] [a1, a2, a3] true = .ok r)
-    (hC01u : RowsAreDB b1 tol us' d1 a1) (hC01v : RowsAreDB b2 tol vs' d2 a2)
-    (hC01w : RowsAreDB b3 tol ws' d3 a3) :
+    (β1 β2 β3 : ℕ → ℕ → K) (hC01u : RowsAre b1 tol us' d1 a1 β1) (hC01v : RowsAre b2 tol vs' d2 a2 β2)
+    (hC01w : RowsAre b3 tol ws' d3 a3 β3) :
     ∀ k1, k1 < us'.length → ∀ k2, k2 < vs'.length → ∀ k3, k3 < ws'.length → ∀ c, c < nc →
       r.get (((k1 * vs'.length + k2) * ws'.length + k3) * nc + c) =
-        tensorDeriv3 (sideOf a1) (sideOf a2) (sideOf a3) b1.kn b2.kn b3.kn (b1.order - 1) (b2.order - 1)
-          (b3.order - 1) n1 n2 n3 (fun i j k => o.cps.get (((i * n2 + j) * n3 + k) * nc + c)) d1 d2 d3
-          (us'.getD k1 0) (vs'.getD k2 0) (ws'.getD k3 0) := by
+        (Finset.range n1).sum (fun i => β1 k1 i *
+          (Finset.range n2).sum (fun j => β2 k2 j *
+            (Finset.range n3).sum (fun k => β3 k3 k * o.cps.get (((i * n2 + j) * n3 + k) * nc + c)))) := by
   obtain ⟨ps, hps, hrr⟩ := derivativeGeneric_nonrational o tol [us, vs, ws] [d1, d2, d3] [a1, a2, a3] true r hr h
   rw [hv] at hps
   injection hps with hps
@@ -148,7 +138,6 @@ theorem derivative_nonrational_volume (o : Obj K) (b1 b2 b3 : Basis K) (hb : o.b
   rw [hrr, homJet_volume o b1 b2 b3 hb, ← hsz2, ← hsz3,
     contractGrid_volume_get _ _ _ _ n1 n2 n3 nc hs k1 k2 k3 c (by rw [basisMat_size]; exact hk1)
       (by rw [basisMat_size]; exact hk2) (by rw [basisMat_size]; exact hk3) hc]
-  unfold tensorDeriv3
   apply Finset.sum_congr rfl
   intro i hi
   rw [Finset.mem_range] at hi
